@@ -374,6 +374,8 @@ val g_NewUserPassword : guard list
 
 val g_NewVendorSpecific : guard list
 
+val g_PacketServer_Serve : guard list
+
 val sW_Packet_Encode : z list list list
 
 val g_Packet_MarshalBinary : guard list
@@ -563,6 +565,127 @@ val client_loop :
 val exchange_recv :
   (bytes -> bytes) -> z -> bool -> bytes -> bytes -> bytes list -> outcome
 
+type key = n * n
+
+val key_eqb : key -> key -> bool
+
+type gstate =
+| GDropped
+| GRun of key
+| GClean of key
+| GDone
+
+type dstate = { inflight : key list; gs : gstate list }
+
+val dinit : dstate
+
+type secret_res =
+| SecErr
+| Sec of bytes
+
+type request = { r_packet : packet; r_remote : n }
+
+val decide :
+  (bytes -> bytes) -> bool -> (n -> secret_res) -> n -> bytes -> request
+  option
+
+val mem : key -> key list -> bool
+
+val delete : key -> key list -> key list
+
+type devent =
+| DArrive of n * bytes
+| DReturn of nat
+| DClean of nat
+
+type dout =
+| ODropped
+| ODispatched of request
+| ONone
+
+val dstep :
+  (bytes -> bytes) -> bool -> (n -> secret_res) -> dstate -> devent ->
+  dstate * dout
+
+val drun :
+  (bytes -> bytes) -> bool -> (n -> secret_res) -> dstate -> devent list ->
+  dstate * dout list
+
+val response_write : (bytes -> bytes) -> request -> packet -> (n * bytes) res
+
+val is_key : z -> avp -> bool
+
+val not_key : z -> avp -> bool
+
+val spec_add : z -> bytes -> attrs -> attrs
+
+val spec_del : z -> attrs -> attrs
+
+val spec_lookup : z -> attrs -> bytes option
+
+val spec_set : z -> bytes -> attrs -> attrs
+
+val in_range : avp -> bool
+
+val spec_tlv : avp -> bytes
+
+val spec_wire : attrs -> bytes
+
+type op =
+| OAdd of z * bytes
+| OSet of z * bytes
+| ODel of z
+| OGet of z
+| OLookup of z
+
+val spec_step : attrs -> op -> attrs * bytes option option
+
+val length_field : bytes -> nat
+
+val spec_tlv_dec_f : nat -> bytes -> attrs res
+
+val spec_tlv_dec : bytes -> attrs res
+
+val spec_parse : bytes -> bytes -> ((((z * n) * bytes) * bytes) * attrs) res
+
+val spec_value_fits : avp -> bool
+
+val spec_marshal : z -> n -> bytes -> attrs -> bytes res
+
+val rfc_reply_codes : z list
+
+val rfc_hashed_request_codes : z list
+
+val rfc_verbatim_codes : z list
+
+val covered : bytes -> bytes -> bytes -> bytes
+
+val auth_field : bytes -> bytes
+
+val zero16 : bytes
+
+val spec_put_auth : bytes -> bytes -> bytes
+
+val spec_encode :
+  (bytes -> bytes) -> z -> n -> bytes -> bytes -> attrs -> bytes res
+
+val spec_is_authentic_response :
+  (bytes -> bytes) -> bytes -> bytes -> bytes -> bool
+
+val spec_is_authentic_request : (bytes -> bytes) -> bytes -> bytes -> bool
+
+val spec_decide :
+  (bytes -> bytes) -> bool -> (n -> secret_res) -> n -> bytes -> request
+  option
+
+val spec_dstep :
+  (bytes -> bytes) -> bool -> (n -> secret_res) -> dstate -> devent ->
+  dstate * dout
+
+val spec_drun :
+  (bytes -> bytes) -> bool -> (n -> secret_res) -> dstate -> devent list ->
+  dstate * dout list
+
 type sret =
 | RetShutdown
 | RetErr
@@ -661,67 +784,6 @@ val do_hact : bool -> state -> hact -> state
 val status : thread -> z
 
 val run_hacts : bool -> state -> hact list -> z list list
-
-val is_key : z -> avp -> bool
-
-val not_key : z -> avp -> bool
-
-val spec_add : z -> bytes -> attrs -> attrs
-
-val spec_del : z -> attrs -> attrs
-
-val spec_lookup : z -> attrs -> bytes option
-
-val spec_set : z -> bytes -> attrs -> attrs
-
-val in_range : avp -> bool
-
-val spec_tlv : avp -> bytes
-
-val spec_wire : attrs -> bytes
-
-type op =
-| OAdd of z * bytes
-| OSet of z * bytes
-| ODel of z
-| OGet of z
-| OLookup of z
-
-val spec_step : attrs -> op -> attrs * bytes option option
-
-val length_field : bytes -> nat
-
-val spec_tlv_dec_f : nat -> bytes -> attrs res
-
-val spec_tlv_dec : bytes -> attrs res
-
-val spec_parse : bytes -> bytes -> ((((z * n) * bytes) * bytes) * attrs) res
-
-val spec_value_fits : avp -> bool
-
-val spec_marshal : z -> n -> bytes -> attrs -> bytes res
-
-val rfc_reply_codes : z list
-
-val rfc_hashed_request_codes : z list
-
-val rfc_verbatim_codes : z list
-
-val covered : bytes -> bytes -> bytes -> bytes
-
-val auth_field : bytes -> bytes
-
-val zero16 : bytes
-
-val spec_put_auth : bytes -> bytes -> bytes
-
-val spec_encode :
-  (bytes -> bytes) -> z -> n -> bytes -> bytes -> attrs -> bytes res
-
-val spec_is_authentic_response :
-  (bytes -> bytes) -> bytes -> bytes -> bytes -> bool
-
-val spec_is_authentic_request : (bytes -> bytes) -> bytes -> bytes -> bool
 
 type verdict =
 | Acceptable of ((((z * n) * bytes) * bytes) * attrs)
@@ -952,5 +1014,11 @@ val dispatch_client : bytes -> bytes list -> z list -> tok list option
 val take_hacts : z list -> hact list
 
 val dispatch_sched : bytes -> bytes list -> z list -> tok list option
+
+val take_devents : z list -> bytes list -> devent list
+
+val t_dout : dout -> tok list
+
+val dispatch_c06 : bytes -> bytes list -> z list -> tok list option
 
 val dispatch : bytes -> bytes list -> z list -> tok list
